@@ -54,7 +54,7 @@ class ClassInfo:
 
     @property
     def is_enum(self):
-        return any(b.split(".")[-1] in ("Enum", "IntEnum", "Flag", "IntFlag") for b in self.bases)
+        return any(b.split(".")[-1] in ("Enum", "IntEnum", "Flag", "IntFlag") for b in self.bases) or getattr(self, "_enum_derived", False)
 
     def __repr__(self):
         return "<class %s>" % self.qual
@@ -116,6 +116,13 @@ class Program:
                     parts = parts[:-1]
                 name = ".".join(parts)
                 self.modules[name] = Module(name, path, rel)
+        # an enumeration may derive from a repository base class that itself derives from Enum (class BitFlag(Enum): methods)
+        allc = [c for m in self.modules.values() for c in m.classes.values()]
+        for _ in range(3):
+            enum_names = {c.name for c in allc if c.is_enum}
+            for c in allc:
+                if not c.is_enum and any(b.split(".")[-1] in enum_names for b in c.bases):
+                    c._enum_derived = True
 
     # ------------------------------------------------------------------
     def module(self, name):
